@@ -14,6 +14,8 @@ from dsim.standin.simfs import FS
 def _guard(f):
     try:
         return ("ok", f())
+    except Violation:
+        raise
     except RecursionError:
         return ("raise", RecursionError, "")
     except Exception as e:
